@@ -467,6 +467,8 @@ def run(ctx):
     P("dfxp._recreate_p_tag", dfxp_p_times, functions=[DFXPWriter._recreate_p_tag, LegacyDFXPWriter._recreate_p_tag])
     P("sami.SAMIWriter._recreate_p_tag", sami_sync_decision,
       functions=[SAMIWriter._recreate_p_tag, SAMIWriter._recreate_blank_tag, SAMIWriter._recreate_sync])
+    import props.C03_lines as LN
+    LN.prove_cue_lines(ctx)          # (WebVTT: a caption with a text node yields at least one cue)
     ctx.bounded("writers", "caption sets of 1-4 cues (carry grid, seeded random, SCC-style fractional times, "
                 "identical and adjacent spans) x 7 writers, outputs parsed by the reference parsers; "
                 "non-trivial = distinct (writer, spans)", lambda b: bounded_writers(ctx, b))
